@@ -19,7 +19,8 @@
 From Coq Require Import List String ZArith Bool.
 From MT Require Import Lib.Interleave.
 From MT Require Import Wrap.WrapSpec Wrap.WrapProofs Wrap.AttrModel Wrap.AttrProofs
-                       Wrap.StaticInitModel Wrap.StaticInitProofs Wrap.WrapTablePinned.
+                       Wrap.StaticInitModel Wrap.StaticInitProofs Wrap.WrapTablePinned
+                       Wrap.StaticMutexModel Wrap.StaticMutexCompose.
 Import ListNotations.
 Open Scope string_scope.
 
@@ -193,6 +194,99 @@ Theorem C16_attr_translation_prefix_refuted :
     forall dflt pth, lookup f (attr_to_myth pin_fields prefix_init_writes pin_steps dflt pth) = Some Undef.
 Proof. exact (conj prefix_attr_rejected attr_translation_prefix_refuted). Qed.
 Print Assumptions C16_attr_translation_prefix_refuted.
+
+(** * A statically initialised mutex behaves as a mutex (composition with C04's protocol model)
+
+    Product system (Wrap/StaticMutexModel.v): every pthread_mutex_{lock,trylock,timedlock,unlock} call =
+    the initialiser handling (StaticInitModel steps on the magic word) followed by SyncModel's call / steps
+    on the same mutex words; the store of the non-magic fields writes SyncModel's initial words;
+    pthread_cond_{wait,signal,broadcast} enter SyncModel directly.  [m0] = the myth magic number: the mutex
+    has been initialised by pthread_mutex_init; anything else: a static initialiser with garbage words. *)
+
+Theorem C16_static_mutex_projects : forall sh,
+  shape_ok sh = true ->
+  forall m0 w0 q0 nt nc, m0 <> sh_initializing sh ->
+  forall p, reachable (fun p => p = pinit sh m0 w0 q0 nt nc) (pstep sh) p ->
+  (* the SyncModel state the product state stands for is reachable in SyncModel from init_state *)
+  reachable MP.init SY.step (proj sh m0 p) /\
+  (* and it IS the product's mutex state as soon as a body has been entered *)
+  (entered p = true -> proj sh m0 p = sy p).
+Proof.
+  intros sh Hok m0 w0 q0 nt nc Hm p Hp. split.
+  - exact (static_mutex_projects sh Hok m0 w0 q0 nt nc Hm p Hp).
+  - exact (static_mutex_entered_ready sh Hok m0 w0 q0 nt nc Hm p Hp).
+Qed.
+Print Assumptions C16_static_mutex_projects.
+
+Theorem C16_static_mutex_no_early_step : forall sh,
+  shape_ok sh = true ->
+  forall m0 w0 q0 nt nc, m0 <> sh_initializing sh ->
+  forall p, reachable (fun p => p = pinit sh m0 w0 q0 nt nc) (pstep sh) p ->
+  ready sh m0 p = false ->
+  (* until the initialisation has completed nobody is in a body, nobody owns, sleeps or has a callback in
+     flight, and the object's words are untouched *)
+  entered p = false /\ pre_ok (sy p) /\ SY.mword (sy p) = w0 /\ SY.mq (sy p) = q0.
+Proof. exact static_mutex_no_early_step. Qed.
+Print Assumptions C16_static_mutex_no_early_step.
+
+Theorem C16_static_mutex_no_late_init : forall sh,
+  shape_ok sh = true ->
+  forall m0 w0 q0 nt nc, m0 <> sh_initializing sh ->
+  forall p ta p', reachable (fun p => p = pinit sh m0 w0 q0 nt nc) (pstep sh) p ->
+  pstep sh p ta = Some p' ->
+  inits (si p') <= 1 /\
+  (entered p = true -> inits (si p') = inits (si p)) /\
+  (m0 = sh_magic_no sh -> inits (si p') = 0).
+Proof. exact static_mutex_no_late_init. Qed.
+Print Assumptions C16_static_mutex_no_late_init.
+
+Theorem C16_static_mutex_mutual_exclusion : forall sh,
+  shape_ok sh = true ->
+  forall m0 w0 q0 nt nc, m0 <> sh_initializing sh ->
+  forall p t1 t2, reachable (fun p => p = pinit sh m0 w0 q0 nt nc) (pstep sh) p ->
+  t1 <> t2 -> SY.holds (sy p) t1 = true -> SY.holds (sy p) t2 = true -> False.
+Proof. exact static_mutex_mutual_exclusion. Qed.
+Print Assumptions C16_static_mutex_mutual_exclusion.
+
+Theorem C16_static_mutex_lock_bit : forall sh,
+  shape_ok sh = true ->
+  forall m0 w0 q0 nt nc, m0 <> sh_initializing sh ->
+  forall p, reachable (fun p => p = pinit sh m0 w0 q0 nt nc) (pstep sh) p ->
+  ready sh m0 p = true ->
+  (SY.mword (sy p) mod 2 = Z.of_nat (SY.count_holders (sy p)))%Z /\ SY.count_holders (sy p) <= 1.
+Proof. exact static_mutex_lock_bit. Qed.
+Print Assumptions C16_static_mutex_lock_bit.
+
+Theorem C16_static_mutex_no_lost_wakeup : forall sh,
+  shape_ok sh = true ->
+  forall m0 w0 q0 nt nc, m0 <> sh_initializing sh ->
+  forall p, reachable (fun p => p = pinit sh m0 w0 q0 nt nc) (pstep sh) p ->
+  ready sh m0 p = true ->
+  0 < MP.SR (sy p) + List.length (SY.mq (sy p)) ->
+  Z.odd (SY.mword (sy p)) = true \/
+  (exists t th u, SY.get_thread (sy p) t = Some th /\ MP.has_act th u /\
+                  exists nf x, u = SY.UClear nf x \/ u = SY.UPush nf x) \/
+  (exists t th, SY.get_thread (sy p) t = Some th /\ MP.mL (SY.main th) = 1).
+Proof. exact static_mutex_no_lost_wakeup. Qed.
+Print Assumptions C16_static_mutex_no_lost_wakeup.
+
+(** non-vacuity: three threads race on the first use of a static initialiser (magic word 0, garbage words
+    77 / [5]); thread 1 wins the CAS and initialises, 0 acquires, 1 finds the bit set and goes to sleep,
+    2's trylock gets EBUSY; then 0 unlocks (handler fast path, dequeue, clear, push) and 1 acquires *)
+Example C16_static_mutex_race_sleeper :
+  psummary (run (pstep si_shape) race_sched (pinit si_shape 0 77 [5] 3 1)) =
+  (123456789%Z, 1, 3%Z, [1], [true; false; false], true).
+Proof. vm_compute. reflexivity. Qed.
+
+Example C16_static_mutex_race_woken :
+  psummary (run (pstep si_shape) (race_sched ++ unlock_sched) (pinit si_shape 0 77 [5] 3 1)) =
+  (123456789%Z, 1, 1%Z, [], [false; true; false], true).
+Proof. vm_compute. reflexivity. Qed.
+
+Example C16_static_mutex_race_early :
+  psummary (run (pstep si_shape) (firstn 11 race_sched) (pinit si_shape 0 77 [5] 3 1)) =
+  (987654321%Z, 0, 77%Z, [5], [false; false; false], false).
+Proof. vm_compute. reflexivity. Qed.
 
 (** * The wrapper layer as a whole (partial: see the header) *)
 
